@@ -7,7 +7,6 @@ for the thread pool is replayed against the real ThreadPoolExecutor, a fixed
 subset against the real ProcessPoolExecutor (conformance of the model)."""
 import itertools
 import os
-import pickle
 import sys
 import threading
 import time
@@ -20,16 +19,36 @@ from mc import explorer, pool
 PROP = "C10"
 LEVEL = "model_checking"
 RULE = ("group A (schedules): op {map, imap, collect, icollect} x files 1..4 "
-        "(thorough ..6) x max_workers {1,2,3} x {thread, process}; group B "
-        "(faults): op x 3 files x 2 workers x every failing subset x "
-        "error_to_warning {F,T} x pool type; group C (options): {map, imap} x "
-        "3 files x 2 workers x selection {start/end, files=, files= reversed, "
-        "bundled files=} x function {identity, returns None, raises on file "
-        "i} x return_info x on_content/pass_info, plus a raising function "
-        "under error_to_warning (alone / next to an unreadable file); group D (align): primaries "
-        "<=2(3), secondaries <=3, every match relation in which each primary "
-        "has >=1 secondary, both loaders on controlled pools, every single "
-        "unreadable file with skip_errors. For each configuration ALL "
+        "(thorough ..6) x max_workers {1,2,3} x {thread, process}, plus "
+        "max_workers and worker_type left at their defaults (FileSet with "
+        "max_threads=2, max_processes=1 and worker_type default / 'thread'; "
+        "3..4 files), where the bound on unconsumed tasks is the FileSet's "
+        "maximum for the pool type in effect; group B (faults): op x 3 files "
+        "x 2 workers x every failing subset x error_to_warning {F,T} x pool "
+        "type (under error_to_warning also with return_info), and the same "
+        "subsets x error_to_warning over bundles on the thread pool (quick: "
+        "1 worker, return_info = error_to_warning, imap/icollect x {files= "
+        "bundled as (2,1), (1,2), (3); find(bundle=2)}, map/collect x the "
+        "bundle of 3; thorough: 2 workers, every op x these selections and "
+        "find(bundle='2h'), under error_to_warning also with return_info); "
+        "group C (options): {map, imap} x 3 files x 2 "
+        "workers x selection {start/end, files=, files= reversed, bundled "
+        "files=} x function {identity, returns None, raises on file i} x "
+        "return_info x on_content/pass_info, plus a raising function under "
+        "error_to_warning (alone / next to an unreadable file), plus "
+        "{collect, icollect} x {files= all, files= first and third} x "
+        "return_info; "
+        "group D (align, c10_align.py): primaries <=2(3), secondaries <=3, "
+        "every match relation in which each primary has >=1 secondary and "
+        "the empty relation, passed as matches= x loader threads {1,2} x "
+        "return_info {T,F} (quick: F with 1 thread only), both loaders on "
+        "controlled pools, every single unreadable file with skip_errors "
+        "{T,F} (quick: not for 3 primaries); and align(start, end, "
+        "max_interval) per shape x loader threads x return_info, the "
+        "relation coming from the time coverage (neighbouring files "
+        "overlap; widened by max_interval; a sub-period; secondaries 10 h "
+        "away = nothing matched). Contents and FileInfo objects are told "
+        "apart in every observation. For each configuration ALL "
         "interleavings of main-thread synchronisations (submit, result, "
         "shutdown) and pool events (start, finish) are explored with state "
         "caching; evaluations = executions, states/transitions = distinct "
@@ -43,6 +62,20 @@ ASSUMPTIONS = [
     "ThreadPoolExecutor and a subset on the real ProcessPoolExecutor",
     "pool breakage (a worker process killed) is not modelled",
     "<= 6 files",
+    "files= holds FileInfo objects (or lists of them); path strings are "
+    "outside the domain",
+    "with max_workers not given, the bound on submitted-but-unconsumed "
+    "tasks is the FileSet's max_threads / max_processes of the pool type in "
+    "effect (worker_type argument, else the FileSet's, else 'process'; "
+    "collect/icollect: threads)",
+    "a bundle with an unreadable member is one unreadable item; whether its "
+    "other members are read is left open; find(bundle='2h') is used with "
+    "files starting on even hours only, where it has to pair the files as "
+    "bundle=2 does",
+    "align(start, end): which files match is decided by an independent "
+    "overlap test of the time coverages; no coverage or period end lies "
+    "within 5 minutes of another one (asserted), periods without any file "
+    "of one side (NoFilesError) are outside the domain",
 ]
 
 T0 = __import__("datetime").datetime(2020, 2, 29, 20, 0)
@@ -76,53 +109,91 @@ def reader(file_info, fail=()):
     return {"id": k}
 
 
-def f_identity(x, *more):
-    return ("I", summarise_arg(x)) + tuple(summarise_arg(m) for m in more)
+def f_identity(*args):
+    return ("I",) + summarise(args)
 
 
-def f_none(x, *more):
+def f_none(*args):
     return None
 
 
 def f_raise(x, *more, bad=0):
-    s = summarise_arg(x)
-    if s == bad or (isinstance(s, tuple) and bad in s):
+    if bad in members_of(x):
         raise FuncError("bad %r" % (bad,))
-    return ("I", s) + tuple(summarise_arg(m) for m in more)
+    return ("I",) + summarise((x,) + more)
 
 
-def summarise_arg(x):
+def summarise(x):
+    """Normalises what typhon returned or handed to the mapped function: a
+    content becomes its file index k, a FileInfo "f<k>" (so that one cannot
+    stand in for the other), a list or tuple a tuple."""
+    if x is None or isinstance(x, (int, str, bool)):
+        return x
     if isinstance(x, dict):
         return x["id"]
-    if isinstance(x, (list, tuple)):
-        return tuple(summarise_arg(i) for i in x)
     if hasattr(x, "path"):
-        return index_of(x.path)
-    return x
+        return "f%d" % index_of(x.path)
+    if isinstance(x, (list, tuple)):
+        return tuple(summarise(i) for i in x)
+    return repr(x)
+
+
+def members_of(x):
+    """The file indices behind a content, a FileInfo or a bundle of them."""
+    if isinstance(x, (list, tuple)):
+        return tuple(k for i in x for k in members_of(i))
+    return (x["id"] if isinstance(x, dict) else index_of(x.path),)
 
 
 FUNCS = {"identity": f_identity, "none": f_none, "raise": f_raise}
+FS_THREADS, FS_PROCESSES = 2, 1     # the FileSets' own maxima
 
 
-def build(root, n):
+def build(root, n, fs_wtype=None):
     from typhon.files import FileSet, FileHandler
     files = fsbuild.populate(root, TEMPLATE, [
         (T0 + k * H, T0 + (k + 1) * H, None) for k in range(n)])
+    kwargs = {} if fs_wtype is None else {"worker_type": fs_wtype}
     fs = FileSet(os.path.join(root, TEMPLATE),
-                 handler=FileHandler(reader=reader), name="c10")
+                 handler=FileHandler(reader=reader), name="c10",
+                 max_threads=FS_THREADS, max_processes=FS_PROCESSES, **kwargs)
     return fs, files
 
 
 # ----------------------------------------------------------------- configs
 
-def cfg(op, n, workers, wtype, sel="period", func="identity", bad=None,
-        fail=(), e2w=False, return_info=False, on_content=None,
-        pass_info=False):
+def cfg(op, n, workers, wtype, sel="period", bundle=None, func="identity",
+        bad=None, fail=(), e2w=False, return_info=False, on_content=None,
+        pass_info=False, fs_wtype=None):
+    """workers / wtype None = argument not passed; fs_wtype = worker_type of
+    the FileSet (None = its default); bundle = the partition of the files
+    for sel "bundled", the bundle argument of find() for "find_bundle"."""
     if on_content is None:
         on_content = op in ("collect", "icollect")
-    return dict(op=op, n=n, workers=workers, wtype=wtype, sel=sel, func=func,
-                bad=bad, fail=tuple(fail), e2w=e2w, return_info=return_info,
-                on_content=on_content, pass_info=pass_info)
+    return dict(op=op, n=n, workers=workers, wtype=wtype, sel=sel,
+                bundle=bundle, func=func, bad=bad, fail=tuple(fail), e2w=e2w,
+                return_info=return_info, on_content=on_content,
+                pass_info=pass_info, fs_wtype=fs_wtype)
+
+
+BUNDLED = ((0, 1), (2,))
+BUNDLE_SELECTIONS = [("bundled", BUNDLED), ("bundled", ((0,), (1, 2))),
+                     ("bundled", ((0, 1, 2),)), ("find_bundle", 2)]
+
+
+def bundle_faults(tier, op, e2w):
+    """(workers, sel, bundle, return_info) of the group B configurations over
+    bundles, where a bundle with an unreadable member is one unreadable item.
+    Every bundle is read through a nested pool, which multiplies the
+    schedules: quick uses one outer worker and gives the eager operations
+    the single bundle only."""
+    if tier == "quick":
+        sels = BUNDLE_SELECTIONS if op in ("imap", "icollect") else \
+            [s for s in BUNDLE_SELECTIONS if s[1] == ((0, 1, 2),)]
+        return [(1, sel, bundle, e2w) for sel, bundle in sels]
+    return [(2, sel, bundle, ri)
+            for sel, bundle in BUNDLE_SELECTIONS + [("find_bundle", "2h")]
+            for ri in ((False, True) if e2w else (False,))]
 
 
 def configs(tier):
@@ -136,6 +207,11 @@ def configs(tier):
                             and wt == "process":
                         continue         # identical model behaviour to thread
                     out.append(("A", cfg(op, n, w, wt, on_content=True)))
+        for n in (3, 4):
+            for fs_wt in ((None, "thread") if op in ("map", "imap")
+                          else (None,)):
+                out.append(("A", cfg(op, n, None, None, on_content=True,
+                                     fs_wtype=fs_wt)))
     for op in ("map", "imap", "collect", "icollect"):
         for r in range(0, 4):
             for fail in itertools.combinations(range(3), r):
@@ -151,6 +227,11 @@ def configs(tier):
                             out.append(("B", cfg(op, 3, 2, wt, fail=fail,
                                                  e2w=e2w, on_content=True,
                                                  return_info=True)))
+                    for w, sel, bundle, ri in bundle_faults(tier, op, e2w):
+                        out.append(("B", cfg(
+                            op, 3, w, "thread", sel=sel, bundle=bundle,
+                            fail=fail, e2w=e2w, on_content=True,
+                            return_info=ri)))
     for op in ("map", "imap"):
         for sel in ("period", "files", "files_rev", "bundled"):
             for func, bad in [("identity", None), ("none", None),
@@ -161,7 +242,8 @@ def configs(tier):
                         if sel == "bundled" and not oc:
                             continue     # bundles are only defined on content
                         out.append(("C", cfg(op, 3, 2, "thread", sel=sel,
-                                             func=func, bad=bad,
+                                             bundle=BUNDLED if sel == "bundled"
+                                             else None, func=func, bad=bad,
                                              return_info=ri, on_content=oc,
                                              pass_info=pi)))
     # an exception of the mapped function is not a read error: it has to
@@ -176,42 +258,55 @@ def configs(tier):
                     out.append(("C", cfg(op, 3, 2, "thread", func="raise",
                                          bad=bad, e2w=True, fail=fail,
                                          on_content=oc, pass_info=pi)))
+    for op in ("collect", "icollect"):
+        for sel in ("files", "files_sub"):
+            for ri in (False, True):
+                out.append(("C", cfg(op, 3, 2, "thread", sel=sel,
+                                     return_info=ri)))
     return out
 
 
 # ----------------------------------------------------------------- oracle
 
+def units(c):
+    """The items to process in order: a file index or a tuple of them."""
+    n = c["n"]
+    if c["sel"] == "files_rev":
+        return list(reversed(range(n)))
+    if c["sel"] == "files_sub":
+        return list(range(0, n, 2))
+    if c["sel"] == "bundled":
+        return list(c["bundle"])
+    if c["sel"] == "find_bundle":
+        return [tuple(range(i, min(i + 2, n))) for i in range(0, n, 2)]
+    return list(range(n))
+
+
+def members(u):
+    return u if isinstance(u, tuple) else (u,)
+
+
 def expected(c):
     """-> (items, error, nwarn): the sequence of per-file results in order,
     the exception class name that ends it (or None) and the number of read
     warnings issued for the items."""
-    n = c["n"]
-    if c["sel"] == "files_rev":
-        units = [k for k in reversed(range(n))]
-    elif c["sel"] == "bundled":
-        units = [(0, 1), (2,)][: 2 if n >= 3 else 1]
-    else:
-        units = list(range(n))
+    paired = c["return_info"] or c["op"] in ("collect", "icollect")
     items = []
     nwarn = 0
-    for u in units:
-        members = u if isinstance(u, tuple) else (u,)
-        info = u
+    for u in units(c):
+        info = tuple("f%d" % m for m in u) if isinstance(u, tuple) \
+            else "f%d" % u
         if c["on_content"]:
-            if any(m in c["fail"] for m in members):
+            if set(members(u)) & set(c["fail"]):
                 if c["e2w"]:
                     nwarn += 1
-                    items.append((info, None) if c["return_info"] or
-                                 c["op"] in ("collect", "icollect") else None)
+                    items.append((info, None) if paired else None)
                     continue
                 return items, "ReadError", nwarn
-            arg = u
-            args = (arg,) + ((info,) if c["pass_info"] else ())
+            args = (u,) + ((info,) if c["pass_info"] else ())
         else:
             args = (info,)
-        if c["func"] == "raise" and (
-                c["bad"] == args[0] or (isinstance(args[0], tuple)
-                                        and c["bad"] in args[0])):
+        if c["func"] == "raise" and c["bad"] in members(u):
             return items, "FuncError", nwarn
         if c["op"] in ("collect", "icollect"):
             val = u
@@ -219,11 +314,17 @@ def expected(c):
             val = None
         else:
             val = ("I",) + args
-        if c["return_info"] or c["op"] in ("collect", "icollect"):
-            items.append((info, val))
-        else:
-            items.append(val)
+        items.append((info, val) if paired else val)
     return items, None, nwarn
+
+
+def max_unconsumed(c):
+    """The bound on submitted-but-unconsumed tasks of imap / icollect."""
+    if c["workers"] is not None:
+        return c["workers"]
+    wtype = "thread" if c["op"] in ("collect", "icollect") else \
+        c["wtype"] or c["fs_wtype"] or "process"
+    return FS_THREADS if wtype == "thread" else FS_PROCESSES
 
 
 def expected_result(c):
@@ -243,19 +344,6 @@ def expected_result(c):
     if c["op"] == "map":
         return ("raised", err) if err else ("ok", items)
     return ("seq", items, err)
-
-
-def summarise(x):
-    """Normalises a value returned by typhon for comparison."""
-    if x is None or isinstance(x, (int, str, bool)):
-        return x
-    if isinstance(x, dict):
-        return x["id"]
-    if hasattr(x, "path"):
-        return index_of(x.path)
-    if isinstance(x, (list, tuple)):
-        return tuple(summarise(i) for i in x)
-    return repr(x)
 
 
 def norm(v):
@@ -279,9 +367,11 @@ class Run:
 
     def kwargs(self):
         c = self.c
-        kw = dict(max_workers=c["workers"])
+        kw = {} if c["workers"] is None else dict(max_workers=c["workers"])
         if c["op"] in ("map", "imap"):
-            kw.update(worker_type=c["wtype"], on_content=c["on_content"],
+            if c["wtype"] is not None:
+                kw["worker_type"] = c["wtype"]
+            kw.update(on_content=c["on_content"],
                       pass_info=c["pass_info"], return_info=c["return_info"])
             kw["func"] = FUNCS[c["func"]]
             if c["func"] == "raise":
@@ -293,25 +383,27 @@ class Run:
             kw["error_to_warning"] = True
         if c["fail"]:
             kw["read_args"] = {"fail": c["fail"]}
-        paths = [f.path for f in self.files]
         from typhon.files.handlers import FileInfo
         infos = [FileInfo(f.path, [f.t0, f.t1], {}) for f in self.files]
-        if c["sel"] == "period":
+        if c["sel"] in ("period", "find_bundle"):
             kw.update(start=T0 - H, end=T0 + 30 * H)
+            if c["sel"] == "find_bundle":
+                kw["bundle"] = c["bundle"]
         elif c["sel"] == "files":
             kw["files"] = infos
         elif c["sel"] == "files_rev":
             kw["files"] = list(reversed(infos))
+        elif c["sel"] == "files_sub":
+            kw["files"] = infos[::2]
         elif c["sel"] == "bundled":
-            kw["files"] = [infos[0:2], infos[2:3]][: 2 if len(infos) >= 3
-                                                   else 1]
+            kw["files"] = [[infos[k] for k in b] for b in c["bundle"]]
         return kw
 
     def on_submit(self):
         self.submitted += 1
         if self.c["op"] in ("imap", "icollect"):
             pending = self.submitted - len(self.consumed)
-            if pending > self.c["workers"]:
+            if pending > max_unconsumed(self.c):
                 self.bound_broken = (self.submitted, len(self.consumed))
 
     def execute(self):
@@ -345,6 +437,7 @@ class Run:
             except pool.Deadlock as exc:
                 out = ("deadlock", str(exc))
             except Exception as exc:
+                reraise_watchdog(exc)
                 out = ("exception", type(exc).__name__, str(exc)[:120])
             gen = None
         nwarn = sum(1 for w in wlist
@@ -352,6 +445,14 @@ class Run:
                     and "Could not read" in str(w.message))
         reads = tuple(sorted(READ_LOG))
         return out, reads, nwarn
+
+
+def reraise_watchdog(exc):
+    """The driver's shard watchdog raises its TimeoutError wherever the shard
+    happens to be; inside a guarded typhon call it still is the harness'
+    timeout (a harness error), not an exception of typhon."""
+    if isinstance(exc, TimeoutError) and str(exc).startswith("shard exceeded"):
+        raise exc
 
 
 def release_frames(exc):
@@ -369,7 +470,7 @@ def judge(c, obs, bound_broken):
     out, reads, nwarn = obs
     exp = norm(expected_result(c))
     if bound_broken is not None:
-        return ("imap/more-than-max_workers-unconsumed", c["workers"],
+        return ("imap/more-than-max_workers-unconsumed", max_unconsumed(c),
                 bound_broken)
     if out[0] in ("deadlock", "exception"):
         return ("%s/%s" % (c["op"], "/".join(out[:2])), exp, out)
@@ -382,13 +483,16 @@ def judge(c, obs, bound_broken):
             what = "wrong-results"
         return ("%s/%s" % (c["op"], what), exp, out)
     # every file is read at most once, exactly once when no error stops the
-    # run (a run stopped by an exception may skip later files)
+    # run (a run stopped by an exception may skip later files, an unreadable
+    # bundle its other members)
     if len(set(reads)) != len(reads):
         return (c["op"] + "/file-read-twice", "each file once", reads)
     items, err, exp_warn = expected(c)
     if c["on_content"] and err is None:
-        if reads != tuple(range(c["n"])):
-            return (c["op"] + "/file-not-read", tuple(range(c["n"])), reads)
+        need = {m for u in units(c) for m in members(u)
+                if not isinstance(u, tuple) or not set(u) & set(c["fail"])}
+        if not need <= set(reads):
+            return (c["op"] + "/file-not-read", sorted(need), reads)
     if not c["on_content"] and reads:
         return (c["op"] + "/read-without-on_content", (), reads)
     if err is None and nwarn != exp_warn:
@@ -396,13 +500,17 @@ def judge(c, obs, bound_broken):
     return None
 
 
+def fileset_of(c, root_cache):
+    key = (c["n"], c["fs_wtype"])
+    if key not in root_cache:
+        root_cache[key] = build(os.path.join(
+            root_cache["root"], "n%d%s" % (key[0], key[1] or "")), *key)
+    return root_cache[key]
+
+
 def explore_config(res, group, c, root_cache):
     from typhon.files import fileset as fsmod
-    key = c["n"]
-    if key not in root_cache:
-        root_cache[key] = build(os.path.join(root_cache["root"],
-                                             "n%d" % key), key)
-    fs, files = root_cache[key]
+    fs, files = fileset_of(c, root_cache)
     stats = explorer.Stats()
     orders = set()
     outcomes = set()
@@ -530,7 +638,6 @@ def conformance(res, c, fs, files, orders):
     """Every distinct completion order the explorer produced is imposed on
     the real thread pool; observations must equal the model's (which are the
     oracle's, otherwise a violation was already reported)."""
-    exp = None
     for order in sorted(orders):
         obs, infeasible = replay_on_real_thread_pool(c, fs, files, order)
         if infeasible is not None:
@@ -576,7 +683,7 @@ def shards(tier, seed):
 
 def run_shard(shard):
     res = driver.ShardResult()
-    if shard[0] == "align":
+    if shard[0].startswith("align"):
         from checks import c10_align
         return c10_align.run_shard(shard)
     root = driver.fresh_dir("c10")
@@ -601,8 +708,7 @@ def run_shard(shard):
         last = (group, c, sorted(orders)[-1] if orders else None)
         if group == "A" and c["wtype"] == "thread" and c["n"] <= 4 \
                 and c["on_content"]:
-            fs, files = cache[c["n"]]
-            conformance(res, c, fs, files, orders)
+            conformance(res, c, *fileset_of(c, cache), orders)
     if last:
         res.sample(dict(group=last[0], cfg=last[1],
                         a_completion_order=last[2]))
@@ -623,8 +729,10 @@ def replay(case):
     from typhon.files import fileset as fsmod
     c = case["cfg"]
     c["fail"] = tuple(c["fail"])
+    if c["sel"] == "bundled":
+        c["bundle"] = tuple(tuple(b) for b in c["bundle"])
     root = driver.fresh_dir("c10r")
-    fs, files = build(root, c["n"])
+    fs, files = build(root, c["n"], c["fs_wtype"])
     if case["group"].startswith("conformance"):
         if case["group"] == "conformance":
             obs, inf = replay_on_real_thread_pool(c, fs, files,
